@@ -71,17 +71,23 @@ class Ctx:
         impl, herr = core.run_harness(lines, profile, features)
         if herr:
             self.broke("harness", name, herr)
-        if model:
-            terms = [c.term() for c in cases]
-            mod, cerrs = core.run_coq_cases(header, terms, self.work, per_shard=per_shard, tag=name)
+        spec_idx = [i for i, c in enumerate(cases) if hasattr(c, "spec_term") and c.spec_term() is not None]
+        spec = [None] * len(cases)
+        terms = ([c.term() for c in cases] if model else []) + [cases[i].spec_term() for i in spec_idx]
+        if terms:
+            res, cerrs = core.run_coq_cases(header, terms, self.work, per_shard=per_shard, tag=name)
             for e in cerrs:
                 self.broke("model-execution", name, e)
+            nm = len(cases) if model else 0
+            mod = res[:nm] if model else [None] * len(cases)
+            for i, r in zip(spec_idx, res[nm:]):
+                spec[i] = r
         else:
             mod = [None] * len(cases)
         ndis = 0
         nfail = 0
         kinds = {}
-        for c, io, mo in zip(cases, impl, mod):
+        for c, io, mo, so in zip(cases, impl, mod, spec):
             self.evaluations += 1
             meta = c.meta()
             kinds[meta.get("kind", "?")] = kinds.get(meta.get("kind", "?"), 0) + 1
@@ -90,6 +96,12 @@ class Ctx:
             verdict = None
             if io is None:
                 verdict = "implementation produced no output for this case (harness crashed)"
+            elif hasattr(c, "oracle2") and so is not None:
+                try:
+                    verdict = c.oracle2(io, so, self)
+                except Exception as e:  # oracle bug must not be silent
+                    verdict = None
+                    self.broke("oracle-error", name, "oracle raised %r on %s" % (e, meta.get("line", "")[:200]))
             elif hasattr(c, "oracle"):
                 try:
                     verdict = c.oracle(io)
